@@ -1323,6 +1323,24 @@ fn nested_case(t: &mut Tape, mask: Mask) -> CaseResult {
             res.map(|(_, m)| (m.as_matched().to_string(), leptos_router::MatchParams::to_params(&m)))
         }));
         obs += 1;
+        // whatever was matched, nothing of the request may survive in the thread: a localized segment evaluated
+        // outside an `I18nRoute` uses the default locale (documented), also right after a prefixed match
+        {
+            let mut outside: Vec<PathSegment> = vec![];
+            dyn_seg(&Seg::Loc(0)).generate_path(&mut outside);
+            let want = vec![PathSegment::Static(c.table.loc_names[0][0].clone().into())];
+            obs += 1;
+            if outside != want {
+                return Err(Failure {
+                    signature: "route-locale-leaks-after-match".into(),
+                    detail: json!({
+                        "function": "i18n_path! segment outside an I18nRoute, evaluated after I18nRoute::match_nested(path)", "path": path,
+                        "why": "the locale of the request that was matched last is still set on the thread",
+                        "expected": want.iter().map(seg_to_string).collect::<Vec<_>>(), "actual": outside.iter().map(seg_to_string).collect::<Vec<_>>(), "case": cj0,
+                    }),
+                });
+            }
+        }
         // model
         let first = segs.first().cloned().unwrap_or_default();
         let exact = set.iter().position(|i| NAMES[*i as usize] == first);
